@@ -85,7 +85,7 @@ class Gen:
         plain = 0  # class 0 is always script-free
         for _ in range(n):
             if kind == 'fin':
-                c = r.choice(['clonef', 'clonef', 'movef', 'dropf', 'upgradef', 'upgradew', 'new', 'collect', 'drops', 'obsf',
+                c = r.choice(['clonef', 'clonef', 'movef', 'dropf', 'upgradef', 'upgradew', 'new', 'newcyc', 'collect', 'drops', 'obsf',
                               'sobs', 'wobsf', 'tryunwrap', 'clean', 'storef', 'finagain', 'panic' if r.random() < 0.1 else 'sobs'])
             elif kind == 'drop':
                 c = r.choice(['upgradef', 'upgradew', 'new', 'drops', 'collect', 'sobs', 'wobsf', 'clones', 'clean', 'obss',
@@ -102,6 +102,9 @@ class Gen:
             elif c == 'upgradef': out.append(f'upgrade wf{w} s{s}') if self.feats['weak'] else None
             elif c == 'upgradew': out.append(f'upgrade w{r.randrange(NSLOTS)} s{s}') if self.feats['weak'] else None
             elif c == 'new': out.append(f'new s{s} {plain}')
+            elif c == 'newcyc':
+                if self.feats['weak'] and self.closure_scripts:
+                    out.append(f'newcyclic s{s} {plain} {r.choice(self.closure_scripts)} 1')
             elif c == 'collect': out.append('collect')
             elif c == 'drops': out.append(f'drop s{s}')
             elif c == 'clones': out.append(f'clone s{s} s{r.randrange(NSLOTS)}')
@@ -126,6 +129,8 @@ class Gen:
         r = self.rng
         # class 0: plain node, 2 traced fields, 1 weak field, no callbacks (the only class scripts allocate)
         self.classes.append(dict(nf=2, traced='11', nw=1, cleaner=0, fin='-', drop='-'))
+        self.closure_scripts = []
+        self.closure_scripts = [self.add_script('closure') for _ in range(2)] if self.feats['weak'] else []
         ncls = r.choice([2, 3, 3, 4])
         for _ in range(ncls):
             nf = r.choice([0, 1, 2, 2, 3])
@@ -136,7 +141,6 @@ class Gen:
             drop = str(self.add_script('drop')) if r.random() < 0.4 else '-'
             self.classes.append(dict(nf=nf, traced=traced, nw=nw, cleaner=cleaner, fin=fin, drop=drop))
         self.action_scripts = [self.add_script('action') for _ in range(2)] if self.feats['clean'] else []
-        self.closure_scripts = [self.add_script('closure') for _ in range(2)] if self.feats['weak'] else []
 
     def structured_prelude(self, main):
         """A directed scenario: a traced cycle of 2-4 objects, some of whose finalizers resurrect a
